@@ -38,6 +38,11 @@ VALUES = {
     "at": ("AT(a={'k': 1}, b=[1])", ["v.a['k'] = 2", "v.b.append(3)", "v.b = None"]),
     "listofdict": ("[{'x': 1}, {'y': [2]}]", ["v[0]['x'] = 5", "v[1]['y'].append(3)", "v.pop(0)"]),
     "tuple_with_list": ("([1, 2], 'fixed')", ["v[0].append(3)", "v[0].clear()"]),
+    # hashable containers holding hashable-but-mutable user objects (a "tuples are immutable" shortcut must not skip the copy)
+    "tuple_with_box": ("(Box('a', [1, 2]), 'x')", ["v[0].items.append(3)", "v[0].name = 'z'", "v[0].items.clear()"]),
+    "frozenset_with_box": ("frozenset({Box('b', [1])})", ["list(v)[0].items.append(9)", "list(v)[0].name = 'q'"]),
+    "namedtuple_with_box": ("NT(a=Box('c'), b=[1])", ["v.a.items.append(4)", "v.b.append(2)"]),
+    "nested_tuple_box": ("((Box('d', [0]),), 1)", ["v[0][0].items.append(1)"]),
 }
 ORDERED = {"list": ("[1, 2, 3]", ["v.append(9)", "v.pop()", "v[0] = 7", "v.clear()", "v.insert(0, 5)", "v[0] = -4"])}
 
@@ -90,6 +95,13 @@ class BadCopy:
 class NeverEqual:
     def __eq__(self, other): return False
     def __repr__(self): return "NeverEqual()"
+
+class HashableBadCopy:
+    def __init__(self, n): self.n = n
+    def __deepcopy__(self, memo): return HashableBadCopy(self.n + 1)
+    def __eq__(self, other): return isinstance(other, HashableBadCopy) and other.n == self.n
+    def __hash__(self): return 1
+    def __repr__(self): return f"HashableBadCopy({self.n})"
 
 class LosesState:
     def __init__(self): self.items = [1]
@@ -166,7 +178,7 @@ def run_shard(args):
             out["samples"].append({"before": src[:1200], "after": new_src[:1200]})
 
     # ---- values whose deep copy is not equal
-    for name, ctor in (("BadCopy", "BadCopy(1)"), ("NeverEqual", "NeverEqual()"), ("LosesState", "LosesState()")):
+    for name, ctor in (("BadCopy", "BadCopy(1)"), ("NeverEqual", "NeverEqual()"), ("LosesState", "LosesState()"), ("HashableBadCopy-in-tuple", "(HashableBadCopy(1), 'x')"), ("HashableBadCopy-in-frozenset", "frozenset({HashableBadCopy(2)})")):
         for op, cmp in (("eq", "snapshot() == v"), ("in", "v in snapshot()"), ("getitem", "snapshot()['k'] == v"), ("eq-nested", "snapshot() == [1, v]"), ("fix", "snapshot(5) == v"), ("fix-in-list", "snapshot([5]) == [v]"), ("getitem-existing", "snapshot({'k': 1})['k'] == v"), ("in-existing", "v in snapshot([1])")):
             for F in (("create", "fix"), ()):
                 src = header + BAD_CLASSES + f"\ndef test_a():\n    v = {ctor}\n    rec(0, lambda: {cmp})\n"
